@@ -40,11 +40,18 @@ def gen_gate(rng, sat_bias=True):
     return p
 
 
+# values of q_O that the SOURCE singles out (fast paths of append_evaluated_output): the scalar whose Montgomery limbs
+# are the extracted constant MINUS_ONE (it is -1 on the unchanged tree); filled in by run() from generated.json
+SPECIAL_QO = []
+
+
 def gen_evalout(rng):
     p = Prog(); p.tags = ["evalout"]
     q = [coeff_value(rng) for _ in range(6)]
-    k = rng.below(6)
-    if k == 0:
+    k = rng.below(7)
+    if k == 6 and SPECIAL_QO:
+        q[3] = rng.choice(SPECIAL_QO); p.tags.append("evalout-qo-source-constant")
+    elif k == 0:
         q[3] = 0; p.tags.append("evalout-qo0")
     elif k == 1:
         q[3] = 1
@@ -149,11 +156,18 @@ def cases(rng, n):
 def run(ctx, broken):
     rng = SplitMix(ctx.seed * 1000003 + 8)
     n = 270 if ctx.tier == "quick" else 4000
+    import json, os
+    try:
+        gen = json.load(open(os.path.join(ctx.work, "generated.json")))["consts"]
+        v = int(gen["MINUS_ONE_MONT"]) if not isinstance(gen["MINUS_ONE_MONT"], str) else int(gen["MINUS_ONE_MONT"], 0)
+        SPECIAL_QO[:] = [v * inv(pow(2, 256, R)) % R, (-v * inv(pow(2, 256, R))) % R]
+    except Exception:
+        SPECIAL_QO[:] = []
     r = ProgRunner(ctx, "C08")
     r.run(cases(rng, n))
     st = r.report(broken)
     st["rule"] = ("programs of 1-5 composer ops drawn per component (general gate with shared/distinct wires, "
-                  "append_evaluated_output incl. q_O in {0,1,-1,random}, gate_add/gate_mul, assert_equal(_constant), "
+                  "append_evaluated_output incl. q_O in {0,1,-1,random, the scalar denoted by the source's fast-path constant}, gate_add/gate_mul, assert_equal(_constant), "
                   "append_constant/public, component_boolean, component_select/_one/_zero); coefficients from "
                   "{0,1,-1,2,small,random}, witness values from the boundary set; half of the returned witnesses are forged "
                   "(verif_set_witness). Each case: layout+witness-table hashes impl vs Lean model, prove/verify outcome vs "
